@@ -1013,3 +1013,8 @@ add("C10", "manifest-loop-inside-one-try", BP,
 add("C14", "manifest-loop-stops-at-first-bad-file", BP,
     [("                logger.debug(\"Error parsing file: %s\", file, exc_info=e)\n                continue\n", "                logger.debug(\"Error parsing file: %s\", file, exc_info=e)\n                break\n")],
     "fire", "R-EVERY-INPUT-READ", "BaseParser.parse")
+CD = "codemodder/code_directory.py"
+add("C05", "manifest-discovery-follows-directory-symlinks", BP,
+    [("            for path in Path(self.parent_directory).rglob(self.file_type.value)\n", "            for path in map(Path, glob.iglob(str(Path(self.parent_directory) / \"**\" / self.file_type.value), recursive=True))\n"),
+     ("from abc import ABC, abstractmethod\n", "import glob\nfrom abc import ABC, abstractmethod\n")],
+    "fire", "R-ENUM-SIBLINGS", "find_file_locations")
